@@ -516,9 +516,18 @@ def chk_accepts_wellformed(T, v, M, rng, nmut=12):
     out, n = [], 0
     try:
         spec = bridge.to_type(T)
-        e = de.encode(bridge.to_value(T, v, spec))
     except Exception:
         return [], 0
+    # the seed encoding comes from the reference encoder, not from the library: a value of the type that the library's own
+    # encoder refuses must not drop out of the check (its decoder accepts the reference encoding, and then "the
+    # library's own encoder accepts the value" is what fails)
+    try:
+        e = x690.der(T, v)
+    except Exception:
+        try:
+            e = de.encode(bridge.to_value(T, v, spec))
+        except Exception:
+            return [], 0
     inputs = mutations(e, rng, nmut)
     if T['k'] in ('SEQUENCE', 'SET'):
         inputs += member_damage(e)
